@@ -331,7 +331,9 @@ func (h *harness) held(round int) {
 		return
 	}
 	sel, ok := h.current()
-	if !ok {
+	if !ok || h.stopped {
+		// the harness cancelled the service while the sample was being taken: the probes in
+		// flight fail at once and whatever the group makes of that round is not judged
 		return
 	}
 	h.s.Probe("c19.held-sample")
@@ -893,7 +895,7 @@ func runProbed(s *simrt.Sim, h *harness, svc shadowsocks.Service, interval time.
 				return
 			}
 			sel, ok := h.current()
-			if !ok {
+			if !ok || stopObs || h.stopped {
 				return
 			}
 			h.samples = append(h.samples, sample{at: s.Elapsed(), sel: sel})
